@@ -77,6 +77,35 @@ RACE = ['tcp_ok', 'tcp_fail', 'timer:connect_retry', 'timer:idle_hold', 'timer:h
         'open_ok', 'ka', 'notif', 'peer_close', 'close_done']
 
 
+def ob_md5_refused(e1: int, e2: int, e3: int) -> bool:
+    """TCP-MD5 configured and the kernel refuses the key (setsockopt raises): whatever the agent does about the error,
+    the attempt it started stays accounted for - at most one attempt / connection at any time"""
+    evs = ['timer', 'tcp_ok', 'tcp_fail', 'manual_stop', 'manual_start', 'close_done']
+    w = S.boot({'md5': 'k' * 81, 'md5_refused': True, 'connect_retry_time': P.get('crt', 10)})
+    try:
+        w.ev_auto_start()
+    except OSError:
+        pass                      # the reactor logs what a callback raises
+    for e in (e1, e2, e3)[:P['k']]:
+        assume(0 <= e < len(evs))
+        ev = evs[e]
+        if not SC.applicable(w, ev):
+            assume(False)
+        mark = w.mark()
+        try:
+            if ev == 'timer':
+                w.ev_fire(SC.next_timer(w))
+            else:
+                SC.inject(w, ev, 0, 0, 0)
+        except OSError:
+            pass
+        obs = SC.observe(w, mark)
+        if not accounting_ok(w, obs):
+            return False
+    cover('seq')
+    return True
+
+
 def obligations(tier, seed):
     quick = tier == 'quick'
     out = []
@@ -103,6 +132,9 @@ def obligations(tier, seed):
     for ev in ('start_idlehold', 'manual_start', 'tcp_ok', 'tcp_fail', 'manual_stop'):
         out.append(ob('C12/step-idle-pending-attempt/%s' % ev, 'ob_step',
                       {'state': S.IDLE, 'ev': ev, 'pending_attempt': True}, covers=['stepped'], cap=120))
+    for crt in (10, 30):
+        out.append(ob('C12/md5-key-refused/crt=%d/k=3' % crt, 'ob_md5_refused', {'k': 3, 'crt': crt}, covers=['seq'],
+                      cap=280 if quick else 800))
     for crt in ([30] if quick else [10, 30, 60]):
         k = 4 if quick else 5
         for first_ev in ('tcp_ok', 'tcp_fail', 'timer:connect_retry', 'manual_stop', 'manual_start'):
